@@ -59,8 +59,17 @@ Next ==
                             DoAll(ra.ops \o <<Op("Reduce", ra.h, <<f, ax>>)>>)
                       \/ \E f \in {"max", "min"}, ax \in (-1)..(Len(s) - 1) :
                             DoAll(ra.ops \o <<Op("Arg", ra.h, <<f, ax>>)>>)
+              [] OTHER -> FALSE
 
-Spec == Init /\ [][Next]_vars
+(* masked arg-reductions: the masked kernels are specialised per element type as well *)
+MaskSet(n) == {[i \in 1..n |-> IF i = 1 THEN 1 ELSE 0], [i \in 1..n |-> IF i = n THEN 1 ELSE 0],
+               [i \in 1..n |-> i % 2], [i \in 1..n |-> 0]}
+NextMasked ==
+    /\ steps = <<>> /\ Family = "maskedarg"
+    /\ \E s \in Shapes \cup {<<5>>, <<3, 2>>} : Len(s) >= 1 /\ \E m \in MaskSet(Prod(s)), f \in {"max", "min"}, ax \in (-1)..(Len(s) - 1) :
+          DoAll(<<Op("NewMasked", 0, <<s, m>>), Op("Arg", 1, <<f, ax>>)>>)
+
+Spec == Init /\ [][Next \/ NextMasked]_vars
 
 (* the integer interpretation of every live tensor *)
 IExp == [h \in 1..Len(live) |-> [k \in 1..Len(live[h].cells) |-> IEval(heap[live[h].cells[k]])]]
